@@ -182,6 +182,33 @@ def _work_sweep(task) -> core.Part:
     return p
 
 
+def _work_history(task) -> core.Part:
+    """A long clean history (N frames with their own flags) followed by a 'twist' (idle noise, frames sharing a flag, an
+    aborted frame): one-shot vs a cut at each of the last ~150 positions vs octet-wise tail.  Counters that need hundreds
+    of frames of history before the chunking starts to matter show here."""
+    cfg, n = task
+    from mc.ref import hdlc as RH
+    p = core.Part()
+    pool = X.frame_pool()
+    a, b = RH.wire(pool["short"], cfg[0]), RH.wire(pool["hdr_only"], cfg[0])
+    hist = b"".join(b"\x7e" + (a if i % 2 else b) + b"\x7e" for i in range(n))
+    twists = {"idle noise": b"\x11\x22" + b"\x7e" + a + b"\x7e\x7e" + b + b"\x7e", "shared flags": a + b"\x7e" + b + b"\x7e" + a + b"\x7e",
+              "aborted frame": b"\x7e" + a[:9] + b"\x7d\x7e" + a + b"\x7e\x7e" + b + b"\x7e", "flag fill": b"\x7e" * 5 + a + b"\x7e"}
+    for tname, tw in twists.items():
+        S = hist + tw
+        ref = observe(cfg, [S])
+        p.add("executions")
+        p.add("nontrivial")
+        lo = max(1, len(hist) - 40)
+        for c in range(lo, len(S)):
+            _cmp(p, cfg, S, f"{n} frames + {tname}", f"cut{c}", X.split(S, (c,)), ref)
+        _cmp(p, cfg, S, f"{n} frames + {tname}", "history one-shot, tail octet-wise", [S[:lo]] + X.bytewise(S[lo:]), ref)
+        _cmp(p, cfg, S, f"{n} frames + {tname}", "fixed64", X.fixed(S, 64), ref)
+        if p.full("chunking"):
+            break
+    return p
+
+
 def _work_aligned(task) -> core.Part:
     """2047-octet frame: pairs of cuts aligned with escape/flag octets, middle chunk sizes around powers of two."""
     cfg = task
@@ -211,6 +238,7 @@ def main(run: core.Run) -> int:
     N, NS, NT = (8, 7, 6) if q else (10, 8, 7)
     run.bounds = {"graph_octets": f"depth {N} over Sigma_h (no stuffing), depth {NS} over Sigma_h+ (stuffing)",
                   "graph_tokens": f"depth {NT} over the 8-token alphabet", "deviations": "<=1 edit" if q else "<=2 edits on single frames, <=1 otherwise",
+                  "long_history": "1..260 (thorough 1100) clean frames, then idle noise / shared flags / aborted frame / flag fill: a cut at each of the last ~150 positions",
                   "mid_size": "120-octet" + ("" if q else " and 300-octet") + " frames with flag/escape octets in the information field: every pair of cuts, fixed sizes up to 128",
                   "check_sequence_sweep": "685 frames covering every octet value in every FCS/HCS position: every single cut", "escape_aligned": "2047-octet frames: cut pairs aligned with 7D/7E, middle chunk 1..1024"}
     parts = []
@@ -242,6 +270,7 @@ def main(run: core.Run) -> int:
     nsw = len(X.fcs_sweep_frames())
     run.merge(par.pmap(_work_sweep, [(cfg, lo, lo + 43) for cfg in X.CFGS for lo in range(0, nsw, 43)], seed=run.seed))
     run.merge(par.pmap(_work_aligned, list(X.CFGS), seed=run.seed))
+    run.merge(par.pmap(_work_history, [(cfg, n) for cfg in X.CFGS for n in ((1, 8, 40, 130, 260) if q else (1, 8, 40, 130, 260, 520, 1100))], seed=run.seed))
     tot = run.total
     tot.sample({"cfg": "stuffing=0,abort=0", "stream": "7e" + X.F7.hex() + "7e", "chunkings": ["one-shot", "octet-wise", "cut@k for k=1..8"],
                 "all_return": [X.F7.hex()]})
